@@ -23,6 +23,7 @@ import (
 	"sort"
 	"strings"
 
+	"golang.org/x/tools/go/packages"
 	"golang.org/x/tools/go/types/typeutil"
 )
 
@@ -144,6 +145,13 @@ func rangeSubject(d *declInfo, s ast.Stmt) string {
 					switch dx := def.(type) {
 					case *ast.IndexExpr, *ast.SelectorExpr:
 						return rangeSubject(d, &ast.RangeStmt{X: def})
+					case *ast.StarExpr, *ast.ParenExpr:
+						// xs := *p — the collection p points to
+						return rangeSubject(d, &ast.RangeStmt{X: def})
+					case *ast.Ident:
+						if objOf(d.pkg, dx) != o {
+							return rangeSubject(d, &ast.RangeStmt{X: def})
+						}
 					case *ast.CallExpr:
 						// xs := recv.helper(…): named after the (canonical) callee, not after the local
 						if f, _ := typeutil.Callee(d.pkg.TypesInfo, dx).(*types.Func); f != nil {
@@ -468,6 +476,13 @@ func (c *Ctx) loopsIn(d *declInfo) []*loopInfo {
 							last := s.Results[len(s.Results)-1]
 							if !isNilIdent(d.pkg, last) {
 								kind = "return-error"
+								// an error that travels with a partly built result is an early exit
+								// with a value: a caller that tolerates the error keeps the part
+								for _, r := range s.Results[:len(s.Results)-1] {
+									if !isZeroValueExpr(d.pkg, r) {
+										kind = "return-value"
+									}
+								}
 							}
 						}
 					}
@@ -732,6 +747,13 @@ func (c *Ctx) classifyAtom0(d *declInfo, li *loopInfo, ifs *ast.IfStmt, a ast.Ex
 			cx := chase(d.pkg, defs, x)
 			if ce, ok := cx.(*ast.CallExpr); ok {
 				if f, _ := typeutil.Callee(info, ce).(*types.Func); f != nil {
+					// a generated getter reads the field: x.GetId() == "" is empty(Id), not a converter
+					if gf := generatedGetterField(f); gf != "" && len(ce.Args) == 0 {
+						if v.isStr() && v.str() == "" {
+							return "empty(" + gf + ")", text
+						}
+						return "field-value(" + gf + ")", text
+					}
 					if f.Pkg() != nil && strings.HasPrefix(f.Pkg().Path(), modPath+"/") {
 						return "inexpressible(" + objName(f) + ")", text + " — the converter has no image for the value"
 					}
@@ -1799,4 +1821,55 @@ func taglessAsEqChain(d *declInfo, x *ast.SwitchStmt) (string, []ast.Expr, bool,
 		n++
 	}
 	return subj, labels, hasDefault, n >= 2
+}
+
+// generatedGetterField: for a protobuf-generated getter (method GetF on a struct with field F, no
+// parameters, one result) the name of the field; "" otherwise.
+func generatedGetterField(f *types.Func) string {
+	sig, _ := f.Type().(*types.Signature)
+	if sig == nil || sig.Recv() == nil || sig.Params().Len() != 0 || sig.Results().Len() != 1 || !strings.HasPrefix(f.Name(), "Get") {
+		return ""
+	}
+	t := sig.Recv().Type()
+	if p, ok := t.(*types.Pointer); ok {
+		t = p.Elem()
+	}
+	st, ok := t.Underlying().(*types.Struct)
+	if !ok {
+		return ""
+	}
+	want := strings.TrimPrefix(f.Name(), "Get")
+	for i := 0; i < st.NumFields(); i++ {
+		if st.Field(i).Name() == want && types.Identical(st.Field(i).Type(), sig.Results().At(0).Type()) {
+			return want
+		}
+	}
+	return ""
+}
+
+// isZeroValueExpr: nil, a zero constant, or an empty composite literal / &T{}.
+func isZeroValueExpr(pkg *packages.Package, e ast.Expr) bool {
+	if isNilIdent(pkg, e) {
+		return true
+	}
+	if v, ok := constOf(pkg, e); ok {
+		switch {
+		case v.isStr():
+			return v.str() == ""
+		case v.isInt():
+			return v.int() == 0
+		}
+		return v.c.ExactString() == "false" || v.c.ExactString() == "0"
+	}
+	switch x := e.(type) {
+	case *ast.ParenExpr:
+		return isZeroValueExpr(pkg, x.X)
+	case *ast.CompositeLit:
+		return len(x.Elts) == 0
+	case *ast.UnaryExpr:
+		if cl, ok := x.X.(*ast.CompositeLit); ok && x.Op == token.AND {
+			return len(cl.Elts) == 0
+		}
+	}
+	return false
 }
